@@ -140,7 +140,10 @@ def main():
             model_out = [None] * len(cases)
             spec_out = [None] * len(cases)
             if model_ok:
-                model_out = vlib.run_lines(vlib.MODEL_BIN, [c.model for c in cases])
+                midx = [i for i, c in enumerate(cases) if c.model]
+                mo = vlib.run_lines(vlib.MODEL_BIN, [cases[i].model for i in midx])
+                for i, o in zip(midx, mo):
+                    model_out[i] = o
                 idx = [i for i, c in enumerate(cases) if c.spec]
                 # a spec line may depend on what the implementation produced (oracle on its output)
                 so = vlib.run_lines(vlib.MODEL_BIN, [cases[i].spec(impl_out[i]) if callable(cases[i].spec)
@@ -183,7 +186,7 @@ def main():
             samples = samples[:4]
             if model_ok and not violations and not disagreements:
                 k = 200 if tier == "quick" else 600
-                pick = [i for i in range(len(cases)) if len(cases[i].model) < 6000][:: max(1, len(cases) // k)][:k]
+                pick = [i for i in range(len(cases)) if cases[i].model and len(cases[i].model) < 6000][:: max(1, len(cases) // k)][:k]
                 try:
                     vm_checked = vlib.vm_crosscheck([(cases[i].model, model_out[i]) for i in pick], pid)
                 except Broken as b:
